@@ -11,8 +11,12 @@
    - soundness: a positive binary answer really parses as format name, that version and
      that mode after a bin/array header; a positive armored answer has that mode's frame
      label, that brand, and a first block decoding to a binary header of that mode.
-   PARTIAL (campaign only): bufio.Peek behaviour of ClassifyStream and the dispatch of
-   ClassifyEncryptedStreamAndMakeDecoder to the matching decoder.
+   STREAM LEVEL (source ties at the end of this file, proofs/GoAstProofs8b.v): IsSaltpackBinary,
+   IsSaltpackArmored, ClassifyStream and ClassifyEncryptedStreamAndMakeDecoder of /repo compute
+   specification functions of the peeked bytes over the documented contract of bufio.Reader.Peek/Size
+   (trusted), leave the reader unchanged (classification consumes no input), and the dispatch hands
+   back exactly the results of the direct entry point of the detected mode.  Campaign only:
+   bufio itself, and IsSaltpackArmoredPrefix's body ([]string slicing: not expressible).
    Only property theorems here. *)
 From Coq Require Import List NArith ZArith Bool.
 From Coq.Strings Require Import Byte.
